@@ -14,7 +14,7 @@ PROPS = {
                       "-DBLAKE3_USE_TBB build of blake3_compress_subtree_wide are checked against an assumed contract of the "
                       "oneTBB join seam; update_mmap_rayon (unit io) == update_reader on a freshly opened file",
         "units": {"quick": [v("tree"), v("tree", "A", join_order="rl"), v("hasher"), v("spec_lemmas"), v("io"),
-                            c("blake3_hasher_update_tbb"), c("blake3_compress_subtree_wide_tbb")],
+                            c("blake3_hasher_update_tbb"), c("blake3_compress_subtree_wide_tbb"), g("c_statics"), g("tbb_seam")],
                   "thorough": [v("hasher", "A", join_order="rl"), s("C08")]},
         "explanation": "update_rayon == update_with_join::<RayonJoin>; both are instances of the generic function proved once "
                        "for all J. Determinism under every schedule follows from: results are functions of the inputs "
